@@ -270,7 +270,7 @@ func runC01NilElem(c *Ctx) {
 	p := c.P
 	occ := map[string]int{}
 	for _, fn := range p.Funcs {
-		if !strings.HasSuffix(p.File(fn.Pos()), "/parse.go") {
+		if !strings.HasSuffix(p.unitFile(fn), "/parse.go") {
 			continue
 		}
 		eachInstr(fn, func(_ *ssa.BasicBlock, _ int, in ssa.Instruction) {
@@ -345,7 +345,7 @@ func runC14Whole(c *Ctx) {
 	p := c.P
 	occ := map[string]int{}
 	for _, fn := range p.Funcs {
-		if !strings.HasSuffix(p.File(fn.Pos()), "/rule_expression.go") {
+		if !strings.HasSuffix(p.unitFile(fn), "/rule_expression.go") {
 			continue
 		}
 		eachInstr(fn, func(b *ssa.BasicBlock, _ int, in ssa.Instruction) {
@@ -429,7 +429,7 @@ func runC14Whole(c *Ctx) {
 func runC03Defer(c *Ctx) {
 	p := c.P
 	for _, fn := range p.Funcs {
-		if !strings.HasSuffix(p.File(fn.Pos()), "/parse.go") || fn.Parent() != nil {
+		if !strings.HasSuffix(p.unitFile(fn), "/parse.go") || fn.Parent() != nil {
 			continue
 		}
 		for _, b := range fn.Blocks {
@@ -676,7 +676,7 @@ func runC03Replace(c *Ctx) {
 	p := c.P
 	n := 0
 	for _, fn := range p.Funcs {
-		if !strings.HasSuffix(p.File(fn.Pos()), "/parse.go") || fn.Parent() != nil {
+		if !strings.HasSuffix(p.unitFile(fn), "/parse.go") || fn.Parent() != nil {
 			continue
 		}
 		// nodes under construction: allocations of module struct types whose fields are stored inside a loop
